@@ -217,3 +217,18 @@ func daysInMonth(y, m int64) int64 {
 	}
 	return d
 }
+
+// genComposedString: a string assembled from value-shaped fragments (signs, digits, fractions,
+// exponents, blanks of several widths, units, temporal pieces) — the strings conversion
+// functions and parsers half-accept: '5days', "1\t'mg'", '+ 1', '1.', '10:00Z' …
+var composedFragments = []string{"", "+", "-", "5", "10", "0", "08", "1.5", ".", ".5", "e3", "E-2", " ", "  ", "\t", "\n", "days", "day", "wk", "'mg'", "mg", "'", "''",
+	"T", "2020-01-01", "2020", "-02", "10:00", ":30", "Z", "+05:30", "true", "x", "_", "0x1F", "1_000", "%", "\u00a0"}
+
+func genComposedString(s Src) string {
+	n := 1 + s.Intn(4)
+	out := ""
+	for i := 0; i < n; i++ {
+		out += pickOne(s, composedFragments)
+	}
+	return out
+}
